@@ -310,9 +310,15 @@ def dyadic(rng: random.Random, lo, hi, bits=4):
 # --------------------------------------------------------------------------- findings
 def load_findings():
     out = {"finding": [], "fixed": []}
-    if not os.path.exists(FINDINGS):
-        return out
-    for line in open(FINDINGS):
+    lines = []
+    if os.path.exists(FINDINGS):
+        lines += open(FINDINGS).read().split("\n")
+    extra = os.path.join(VERIF, "findings.d")
+    if os.path.isdir(extra):
+        for fn in sorted(os.listdir(extra)):
+            if fn.endswith(".txt"):
+                lines += open(os.path.join(extra, fn)).read().split("\n")
+    for line in lines:
         line = line.strip()
         if not line or line.startswith("#"):
             continue
